@@ -137,3 +137,32 @@ Theorem C13_group_polled_within_its_distance :
                    (snd (fu_poll_next P mrg u1 t (begin_op i (st_world (reach P (ops0 ++ ops1)))))).
 Proof. exact group_polled_within_distance_plus_one. Qed.
 Print Assumptions C13_group_polled_within_its_distance.
+
+(** the same with pushes between the polls ([ops]: anything but a constructor or the drop of
+    the collection).  A push goes into the last group (order and cursor unchanged) or appends a
+    group, which moves a group at most one step away from the cursor: the group owning waker
+    block [b], at distance [d], is polled within d + 1 + (groups created meanwhile) polls.
+    (Groups created over a whole history are logarithmic in the peak number held, C18.) *)
+From FB Require Import CrossGroupPush.
+Theorem C13_group_polled_within_its_distance_with_pushes :
+  forall (P : params), params_ok P ->
+  forall (ops0 ops : list op) (mrg : bool) (u : fu) (b d : nat),
+  st_coll (reach P ops0) = Cu mrg u -> Pos b u d -> Forall poll_env_push ops ->
+  d + ncreated P (reach P ops0) ops < npolls ops ->
+  exists ops1 t i ops2 u1 g1,
+      ops = ops1 ++ OPoll t i :: ops2 /\ st_coll (reach P (ops0 ++ ops1)) = Cu mrg u1
+      /\ In g1 (groups u1) /\ blk g1 = b
+      /\ polled_in P mrg g1 t (begin_op i (st_world (reach P (ops0 ++ ops1))))
+                   (snd (fu_poll_next P mrg u1 t (begin_op i (st_world (reach P (ops0 ++ ops1)))))).
+Proof. exact block_polled_within_distance_plus_created. Qed.
+Print Assumptions C13_group_polled_within_its_distance_with_pushes.
+
+(** a push moves no group more than one step away from the cursor, and only by creating a group *)
+Theorem C13_push_moves_a_group_at_most_one_step :
+  forall (P : params), params_ok P ->
+  forall (mrg : bool) (u : fu) (c : child) (w : world) (b d : nat),
+  fu_ok mrg u -> Pos b u d ->
+  let u' := fst (fu_push P mrg u c w) in
+  exists d', Pos b u' d' /\ d' <= d + (length (groups u') - length (groups u)).
+Proof. exact push_pos. Qed.
+Print Assumptions C13_push_moves_a_group_at_most_one_step.
